@@ -3,6 +3,8 @@
   check selftest determinism [IDs]   same seeds twice, 1 vs N workers, harness hash seed 0 vs 12345
   check selftest mutants [IDs]       every /verif/mutants/<ID>-*.diff must be detected by the quick tier
   check selftest seeded [IDs]        every /verif/seeded/<name>/patch.diff: report which checks catch it
+  check selftest sweep [seeds] [IDs] quick tier under several VERIF_SEEDs must stay silent (default seeds 1-5)
+  check selftest restart             soft restart vs a fresh interpreter (C12, C04)
   check selftest schema              committed evidence files validate against the schema
 """
 import glob
@@ -198,6 +200,25 @@ def restart(props, n=60):
     return 1 if bad else 0
 
 
+def sweep(args):
+    """No-false-alarm sweep: the quick tier of every claimed property under several VERIF_SEEDs on the
+    tree under test; any exit status other than 0 is reported."""
+    seeds = [a for a in args if a.isdigit()] or ["1", "2", "3", "4", "5"]
+    props = [a for a in args if not a.isdigit()] or ALL
+    bad = 0
+    for seed in seeds:
+        for prop in props:
+            with tempfile.TemporaryDirectory() as td:
+                rc, out = _run(prop, "quick", {"VERIF_SEED": seed, "VERIF_EVIDENCE_DIR": td, "VERIF_REPLAY_DIR": td})
+            sigs = re.findall(r"violation signature: (\S+)", out)
+            print(f"[selftest] sweep VERIF_SEED={seed} {prop}: rc={rc} {sigs[:3]}", flush=True)
+            if rc != 0:
+                bad += 1
+                print("\n".join(l[:400] for l in out.splitlines() if "HARNESS" in l or "detail" in l)[:2000])
+    print(f"[selftest] sweep: {len(seeds) * len(props) - bad}/{len(seeds) * len(props)} runs clean")
+    return 1 if bad else 0
+
+
 def schema():
     try:
         import jsonschema
@@ -232,6 +253,8 @@ def main(argv):
         return seeded(props, tier)
     if what == "schema":
         return schema()
+    if what == "sweep":
+        return sweep(argv[1:])
     if what == "restart":
         return restart(props or ["C12", "C04"])
     print(__doc__)
